@@ -245,6 +245,19 @@ pub fn check_c03(c: &EvoCase, acc: &mut Acc, record: bool) -> Verdict {
         }
     }
     let (got, rest) = vcat::decode_with_rest(&tr, &bytes);
+    // at top level the value is also read through the `deserialize` entry point: the same outcome (it may leave the
+    // bytes of a removed trailing field of version-0 data unread, DESIGN section 9)
+    if c.placement == Placement::Top {
+        let via_entry = vcat::decode(&tr, &bytes);
+        let same = match (&via_entry, &got) {
+            (Ok(a), Ok(b)) => canon(&tr, a) == canon(&tr, b),
+            (Err(a), Err(b)) => a.kind == b.kind,
+            _ => false,
+        };
+        if !same {
+            return Verdict::Fail(format!("version {} reading data of version {}: deserialize() gives {:?} where reading the same bytes through a DeserializationContext gives {:?} (steps {:?}, bytes {})", c.r, c.w, via_entry.as_ref().map(|v| v.brief()), got.as_ref().map(|v| v.brief()), versions.last().unwrap().steps, hex(&bytes)));
+        }
+    }
     let verdict = compare_c03(c, &versions, &tr, &bytes, &expected, &got, &rest);
     if let Verdict::Fail(_) = &verdict {
         if c.w != c.r && f17_explains(&tw, &tr, &bytes, &got).is_some() {
